@@ -33,11 +33,11 @@ def run(ctx, driver):
     sysconf.run_conformance(ctx, rec, 60, 2000)
     sweeprun.run_sweeps(ctx, rec, ID, ["C06:"])
     import concur
-    concur.explore(ctx, rec, ID, {"p_fault": 0.12, "p_cancel": 0.15, "gate_close": True}, 40, 600, ["C06:"])
+    concur.explore(ctx, rec, ID, {"p_fault": 0.12, "p_cancel": 0.15, "gate_close": True}, 100, 1500, ["C06:"])
     concur.explore(ctx, rec, ID, {"p_fault": 0.05, "p_cancel": 0.0, "srvclose": True, "max_connections": 2, "p_hold": 0.1, "callers": 5,
-                                  "max_keepalive": None}, 50, 600, ["C06:"])
+                                  "max_keepalive": None}, 80, 1000, ["C06:"])
     concur.explore(ctx, rec, ID, {"p_fault": 0.1, "p_cancel": 0.05, "http2": True, "max_connections": 1, "p_conn_close": 0.0, "callers": 4},
-                   40, 600, ["C06:"])
+                   80, 1000, ["C06:"])
     return rec.finish("C06 sweeps + explorer", sweeprun.RULE)
 
 
